@@ -6,20 +6,26 @@ import (
 	"sync"
 )
 
+// fanOutput is one consumer of a DynamicFanOut.
+type fanOutput[T any] struct {
+	ch   chan T
+	gone chan struct{} // closed by DespawnOutput: the owner no longer reads ch
+}
+
 type DynamicFanOut[T any] struct {
 	input    <-chan T
 	inputCap int
 
 	closed  bool
 	mutex   sync.Mutex
-	outputs map[int64]chan T
+	outputs map[int64]*fanOutput[T]
 }
 
 func NewDynamicFanOut[T any](input <-chan T) *DynamicFanOut[T] {
 	f := DynamicFanOut[T]{
 		input:    input,
 		inputCap: cap(input),
-		outputs:  make(map[int64]chan T),
+		outputs:  make(map[int64]*fanOutput[T]),
 		mutex:    sync.Mutex{},
 	}
 	go f.run()
@@ -27,12 +33,24 @@ func NewDynamicFanOut[T any](input <-chan T) *DynamicFanOut[T] {
 }
 
 func (f *DynamicFanOut[T]) run() {
+	var targets []*fanOutput[T]
 	for e := range f.input {
+		// The mutex only guards the set of outputs. It is not held while sending: an output whose owner has
+		// stopped reading would otherwise block run() with the mutex held, and DespawnOutput (which needs the
+		// mutex) could never remove that output.
 		f.mutex.Lock()
+		targets = targets[:0]
 		for _, o := range f.outputs {
-			o <- e
+			targets = append(targets, o)
 		}
 		f.mutex.Unlock()
+
+		for _, o := range targets {
+			select {
+			case o.ch <- e:
+			case <-o.gone:
+			}
+		}
 	}
 	f.closed = true
 }
@@ -48,7 +66,7 @@ func (f *DynamicFanOut[T]) SpawnOutput() (int64, <-chan T, error) {
 	if ocap == 0 {
 		ocap = 1
 	}
-	newChan := make(chan T, ocap)
+	newOutput := &fanOutput[T]{ch: make(chan T, ocap), gone: make(chan struct{})}
 	var id int64
 	var found bool
 
@@ -64,21 +82,22 @@ func (f *DynamicFanOut[T]) SpawnOutput() (int64, <-chan T, error) {
 		return 0, nil, fmt.Errorf("no space available")
 	}
 
-	f.outputs[id] = newChan
+	f.outputs[id] = newOutput
 	f.mutex.Unlock()
-	return id, newChan, nil
+	return id, newOutput.ch, nil
 }
 
-// DespawnOutput removes output channel with given ID
+// DespawnOutput removes output channel with given ID. It never waits for a pending delivery: the output is
+// marked as gone, which also releases run() if it is blocked on that output.
 func (f *DynamicFanOut[T]) DespawnOutput(id int64) error {
 	f.mutex.Lock()
 	defer f.mutex.Unlock()
 
-	c, ok := f.outputs[id]
+	o, ok := f.outputs[id]
 	if !ok {
 		return fmt.Errorf("output id %d not found", id)
 	}
-	close(c)
+	close(o.gone)
 	delete(f.outputs, id)
 
 	return nil
